@@ -1,6 +1,7 @@
 package main
 
 import (
+	"strings"
 	"fmt"
 	"go/token"
 	"go/types"
@@ -239,6 +240,26 @@ func ruleGlobalSettingPhase(c *Ctx) {
 			}
 		}
 		c.Check(good && hasFalse, rule, construct, "skipCheck is false on entry of every attempt and becomes true only after a successful validating round returned a larger MaxTS", P.instrPos(ci), detail)
+	}
+	// every other user of SyncMaxTS wants the local maxima collected (GetMaxLocalTSO for a new local leader): it asks
+	// with skipCheck == false — with skipCheck the handlers report nothing and the caller reads back its own zero
+	nOther := 0
+	for _, fn := range P.Funcs {
+		if P.isScaffold(fn) || fn == gen || !strings.HasPrefix(fnPkgPath(fn), modPath) {
+			continue
+		}
+		for _, ci := range callsIn(fn, false, syncMax) {
+			a := callArgs(ci.Common())
+			if len(a) != 4 {
+				continue
+			}
+			nOther++
+			b, isC := constBool(a[3])
+			c.Check(isC && !b, rule, fmt.Sprintf("skipCheck passed to SyncMaxTS in %s", fnName(fn)), "a caller that reads the collected maximum back asks for the collecting phase (skipCheck == false)", P.instrPos(ci.(ssa.Instruction)), "")
+		}
+	}
+	if nOther == 0 {
+		c.Undec(rule, "collecting callers of SyncMaxTS (GetMaxLocalTSO)", "at least 1", "", "0")
 	}
 	// SyncMaxTS handler (local side)
 	h := P.Method("server", "Server", "SyncMaxTS")
@@ -634,6 +655,7 @@ func init() {
 		c.Group("C05/overflow-carry", "when the estimate's logical part overflows it is reset only together with an advance of its physical part", func() { ruleOverflowCarry(c); ruleOverflowVetted(c) })
 		c.Group("C05/suffix-bits-reported", "the suffix width reported with a timestamp is the width used to differentiate it, computed from the largest suffix in use", func() { ruleSuffixBitsReported(c) })
 		c.Group("C05/monotone-write", "(shared with C01) the maximum written back into a local allocator is adopted whenever it is later in the millisecond arithmetic timestamps are composed with: equal milliseconds are decided by the logical part", func() { ruleMonotoneWrite(c) })
+		c.Group("C05/save-before-advance", "(shared with C01/C02) a maximum written back into an allocator beyond its stored window is saved before memory advances", func() { ruleSaveBeforeAdvance(c) })
 		c.Group("C05/global-generate", "(shared with C01) a global timestamp is returned only after ok(SyncMaxTS), pre-check and a post-write leadership check", func() { ruleGlobalGenerate(c) })
 		c.Group("C05/getTS", "(shared with C01) overflow and lease guards of the local path", func() { ruleGetTS(c) })
 	})
